@@ -27,7 +27,7 @@ RULE = ('(1) histories: 1-8 random operations (valid parse/split/format '
         'input type, recursion overflow under a lowered limit; abandoned '
         'parsestream generators; clear()/set_SQL_REGEX()/add_keywords() '
         'followed by default_initialization(); bursts of concurrent calls) '
-        'after which an 11-probe observation set must equal the reference '
+        'after which a 17-probe observation set must equal the reference '
         'taken in a fresh process. (2) N in {2,4,8} threads run identical '
         'and disjoint inputs through parse/split/format with a 1 us switch '
         'interval; each result must equal the sequential one. (3) first '
@@ -79,6 +79,33 @@ def op_valid(rng, src):
     return 'valid-' + api
 
 
+def op_encoding(rng, src):
+    """Calls that pass an explicit encoding (valid or unknown), on str and
+    on bytes input."""
+    enc = rng.choice(['latin-1', 'cp1251', 'utf-16', 'no-such-codec', 'gbk'])
+    text = rng.choice(['select 1 from t', 'select \u00e9 from t'])
+    for data in (text, text.encode('utf-8', 'replace')):
+        try:
+            rng.choice([sqlparse.parse, sqlparse.split,
+                        sqlparse.format])(data, encoding=enc)
+        except Exception:
+            pass
+    return 'explicit-encoding'
+
+
+def op_bulk(rng, src):
+    """One statement of more than 10 000 tokens."""
+    text = hostile.bulk_statement(rng)
+    try:
+        if rng.random() < 0.5:
+            sqlparse.parse(text)
+        else:
+            sqlparse.format(text, keyword_case='upper')
+    except Exception:
+        pass
+    return 'bulk-statement'
+
+
 def op_bad_option(rng, src):
     opts, name = options.invalid_option(rng)
     try:
@@ -103,14 +130,20 @@ def op_recursion(rng, src):
                        'select ' + 'case when a then ' * 200 + ' end' * 200,
                        'select a' + '[' * 400 + ']' * 400,
                        'select ' + 'f(' * 300 + '1' + ')' * 300
-                       + '; select 2; select 3'])
+                       + '; select 2; select 3',
+                       'select * from ' + '(select * from ' * 300 + 't'
+                       + ')' * 300])
     sys.setrecursionlimit(rng.choice([80, 120, 200]))
     try:
         try:
-            if rng.random() < 0.5:
+            x = rng.random()
+            if x < 0.4:
                 sqlparse.parse(text)
-            else:
+            elif x < 0.7:
                 sqlparse.format(text, reindent=True)
+            else:
+                sqlparse.format(text, reindent_aligned=True,
+                                indent_tabs=rng.random() < 0.5)
         except Exception:
             pass
     finally:
@@ -234,7 +267,8 @@ def op_interleaved(rng, src):
 
 
 OPS = [op_valid, op_valid, op_valid, op_bad_option, op_wrong_type,
-       op_interleaved, op_heavy_format, op_heavy_format,
+       op_interleaved, op_heavy_format, op_heavy_format, op_encoding,
+       op_bulk,
        op_recursion, op_abandon, op_reconfigure, op_reconfigure,
        op_concurrent]
 
